@@ -152,7 +152,26 @@ impl Wal {
 		let sync_fd = Arc::new(file.try_clone()?);
 
 		// Get file size from the opened file handle
-		let existing_size = file.metadata()?.len();
+		let mut existing_size = file.metadata()?.len();
+
+		// A crash can leave a torn record at the tail of the segment: part of a header, or
+		// First/Middle fragments without their Last. Replay reads that as a clean end of
+		// log, so records appended after it would be unreadable at the next recovery.
+		// Cut such a tail off before appending.
+		if existing_size > 0 {
+			if let Some(valid_end) = Self::valid_prefix_len(&file_path) {
+				if valid_end > 0 && valid_end < existing_size {
+					log::warn!(
+						"WAL #{:020}: dropping {} bytes of torn tail before appending",
+						log_number,
+						existing_size - valid_end
+					);
+					file.set_len(valid_end)?;
+					file.sync_all()?;
+					existing_size = valid_end;
+				}
+			}
+		}
 
 		if existing_size > 0 {
 			// Existing file: detect the compression type from the file itself.
@@ -179,6 +198,22 @@ impl Wal {
 				writer.add_compression_type_record()?;
 			}
 			Ok((writer, sync_fd))
+		}
+	}
+
+	/// Length of the prefix of a segment that replay delivers when it ends with a clean
+	/// end of log; `None` when the segment is damaged (recovery decides about repair) or
+	/// cannot be read.
+	fn valid_prefix_len(file_path: &Path) -> Option<u64> {
+		let file = File::open(file_path).ok()?;
+		let mut reader = super::reader::Reader::new(file);
+		let mut last = 0u64;
+		loop {
+			match reader.read() {
+				Ok((_, offset)) => last = offset,
+				Err(Error::IO(e)) if e.kind() == io::ErrorKind::UnexpectedEof => return Some(last),
+				Err(_) => return None,
+			}
 		}
 	}
 
